@@ -143,6 +143,44 @@ pub fn fe_push<B: Buffer>(s: &[u8]) -> FeTrace {
     FeTrace { name: "Decoder::push_byte+finalize", events, pos: Some(pos), finalize_n }
 }
 
+/// Push decoder constructed with `Decoder::from_buf` from a buffer that still holds bytes of an
+/// earlier use (as many as fit): must behave exactly like `Decoder::new()`.
+pub fn fe_push_from_buf<B: Buffer>(s: &[u8]) -> FeTrace {
+    let mut events = vec![];
+    let mut pos = vec![];
+    let r = guarded(|| {
+        let mut b = B::default();
+        for k in 0..5u8 {
+            if b.push(0xe0 | k).is_err() {
+                break;
+            }
+        }
+        let mut d = Decoder::<B>::from_buf(b);
+        for (i, &x) in s.iter().enumerate() {
+            match d.push_byte(x) {
+                Ok(None) => {}
+                Ok(Some(m)) => {
+                    events.push(Ev::Msg(m.to_vec()));
+                    pos.push(i + 1);
+                }
+                Err(e) => {
+                    events.push(Ev::Dec(e));
+                    pos.push(i + 1);
+                }
+            }
+        }
+        if let Some(e) = d.finalize() {
+            events.push(Ev::Dec(e));
+            pos.push(s.len());
+        }
+    });
+    if let Err(p) = r {
+        events.push(Ev::Panic(p));
+        pos.push(s.len());
+    }
+    FeTrace { name: "Decoder::from_buf(used buffer)+push_byte+finalize", events, pos: Some(pos), finalize_n: None }
+}
+
 /// `transport::decode` (always `Vec`).
 pub fn fe_decode(s: &[u8]) -> FeTrace {
     let mut events = vec![];
@@ -328,7 +366,7 @@ pub fn fe_reader_onebyte<B: MkBuilder>(s: &[u8]) -> FeTrace {
 /// Which front-ends to run.
 #[derive(Clone, Copy, PartialEq, Eq, Debug)]
 pub enum FeSet {
-    /// push decoder, decode_streaming, SmlReader(slice)
+    /// push decoder, decode_streaming, SmlReader(slice), Decoder::from_buf(used buffer)
     Core,
     /// all seven (decode only with Vec)
     All,
@@ -343,7 +381,7 @@ impl<'a> BufVisitor for RunFes<'a> {
     type Out = Vec<FeTrace>;
     fn visit<B: Buffer + MkBuilder + Send + 'static>(self) -> Vec<FeTrace> {
         let s = self.s;
-        let mut v = vec![fe_push::<B>(s), fe_decode_streaming::<B>(s), fe_reader_slice::<B>(s)];
+        let mut v = vec![fe_push::<B>(s), fe_decode_streaming::<B>(s), fe_reader_slice::<B>(s), fe_push_from_buf::<B>(s)];
         if self.set == FeSet::All {
             if self.is_vec {
                 v.push(fe_decode(s));
